@@ -24,9 +24,11 @@ def mutating(log):
 
 def default_reply(ip, sender, req):
     """reply the actor would eventually send: Ok with an empty/opaque payload"""
-    txs = find_values(req, OneshotTx)
-    if not txs:
+    from framework import responder_of
+    tx0 = responder_of(req)
+    if tx0 is None:
         return
+    txs = [tx0]
     p = ip.path
     replies = getattr(p, 'replies', {})
     variant = None
@@ -83,6 +85,7 @@ class Wrapper(Obligation):
 
 
 class CreateSubscription(Obligation):
+    required_covers = ('created', 'project mismatch', 'already exists')
     id = 'C16.a-create_subscription'
     tier = 'T3'
     desc = 'SubscriptionManager::create_subscription abandoned at any await: no half-created subscription (registered but not handed to its topic)'
